@@ -93,7 +93,7 @@ def run(ctx):
                traces_validated_against_impl=nsc, evaluations=len(lines), distinct_nontrivial=len(keys),
                rule="R1: spec/SerialImpl.tla for 2 connections x 3 messages with one held handler, every interleaving; R2: 1-3 connections (accepted by Server.Serve on an in-memory listener, or diam.NewConn) x 2-3 messages x "
                     "{burst in one segment, one byte at a time, interleaved across connections} x every placement of one held handler; handlers record enter/exit under one lock; while a handler is held every other connection "
-                    "must finish within a 5 s positive deadline and the held connection's next handler must not start during a 30 ms grace period. non-trivial = a handler is held or several connections; distinct by scenario Since extended: connections dialled over loopback TCP (diam.Dial), accepted by a server with WriteTimeout shorter than the hold, multi-stream associations; GOMAXPROCS connections whose handlers are stuck in WriteTo plus one more; flavours dwr, regpending, cn (newest-reader-first transport), panicreg.",
+                    "must finish within a 5 s positive deadline and the held connection's next handler must not start during a 30 ms grace period. non-trivial = a handler is held or several connections; distinct by scenario Since extended: connections dialled over loopback TCP (diam.Dial), accepted by a server with WriteTimeout shorter than the hold, multi-stream associations; GOMAXPROCS connections whose handlers are stuck in WriteTo plus one more; flavours dwr, regpending, cn (newest-reader-first transport), panicreg (own harness process), cneof; a burst of 24 behind a held handler; via sm (state machine server, peers with one Origin-Host); hook-level conformance of the serve loops.",
                samples=[l for l in lines[:6]], exhaustive=True, impl_conformance=conf, rejected=len(bad), known_finding_hits={k: n for k, (n, _) in v.hits.items()})
     rc = v.finish()
     vlib.write_evidence("C08", ctx.tier, ctx.seed, cov, ctx.wall(), v.nviol,
